@@ -213,6 +213,11 @@ class OwnDomain(Domain):
         if nm in ("attrs.evolve", "attr.evolve", "copy.copy", "dataclasses.replace") and args:
             slots = {"." + k: v for k, v in kwargs.items() if k != "**"}
             return it.new(st, "obj", node, slots=slots, meta={"shallow_of": args[0]}, tag=F)
+        if nm in ("attrs.asdict", "attr.asdict") and args:
+            # recurse=False: a new dict whose values are the instance's own field values (the caller's containers);
+            # the default (recurse=True) rebuilds nested attrs instances, dicts and lists
+            shallow = any(k.arg == "recurse" and isinstance(k.value, ast.Constant) and k.value.value is False for k in getattr(node, "keywords", []))
+            return it.new(st, "dict", node, elem=V(args[0].tag) if shallow else V(F), tag=F)
         if nm in VIEW_EXTERNALS and args:
             r = it.default_external(nm, args, kwargs, node, st)
             if r is not None:
